@@ -52,6 +52,13 @@ Definition DIAG_extra_channels_aligned := Eval vm_compute in
   map id_of (filter (fun c => negb (extra_aligned_cfg c)) band_configs).
 Print DIAG_extra_channels_aligned.
 
+(* (deprecated name, repeater, dwell): GetConfig does not return the configuration of the common name *)
+Definition DIAG_deprecated_name := Eval vm_compute in
+  map id_of (filter (fun ac => negb (alias_cfg_check ac)) band_alias_configs)
+  ++ flat_map (fun p => flat_map (fun rep => flat_map (fun dw =>
+       if alias_cover_cell (fst p) rep dw then [] else [(fst p, rep, dw)]) [false; true]) [false; true]) deprecated_names.
+Print DIAG_deprecated_name.
+
 (* (name, repeater, dwell, hopping channel number) *)
 Definition DIAG_ping_slot := Eval vm_compute in
   flat_map (fun c => map (fun k => (id_of c, k))
